@@ -178,6 +178,10 @@ def main():
                 res["fresh"] = [list(g) for g in got2]
         except Exception as e:
             res["raised"] = {"type": type(e).__name__, "msg": str(e)[:300]}
+        except BaseException as e:
+            # CobaMultiprocessor reports the RuntimeError family through coba_exit (CobaExit derives from BaseException)
+            if type(e).__name__ != "CobaExit": raise
+            res["raised"] = {"type": "CobaExit", "msg": str(e)[:300]}
         if spec.get("reuse") and spec["abandon"] is None:
             # the same Multiprocessor object is used for a second, healthy stream (state of the first call must not matter)
             phase["name"] = "reuse"
